@@ -977,6 +977,8 @@ class Layout:
                 g = self.gap(prev, nxt, no_comma=True, force_space=(prev.ty != "comma"))
                 pieces.append(("sep", g))
                 pieces.append(("tok", nxt.text))
+                if "\n" in nxt.text or "\r" in nxt.text:
+                    self.cur_indent = 0
                 prev = nxt
                 i += 2
                 continue
